@@ -132,7 +132,8 @@ TIES = {
     # the lookup tie's lemmas: those are regenerated and re-proved first ("needs")
     "encode": {"sources": ["pyjelly/serialize/encode.py"], "gen": "EncodeGen", "tie": "EncodeTie", "needs": ["lookup_enc", "options"],
                "theorems": ["source_split_iri_is_model", "source_term_encoder_init_is_model", "source_start_statement_is_model",
-                            "source_encode_iri_indices_is_model"]},
+                            "source_encode_iri_indices_is_model", "source_encode_iri_is_model", "source_encode_namespace_declaration_is_model",
+                            "source_encode_options_is_model", "source_encode_literal_is_model"]},
 }
 
 
